@@ -36,6 +36,7 @@ inductive AggFn
 /-- first-class expressions over aggregates -/
 inductive AExpr
   | agg (fn : AggFn) (arg : Expr)
+  | countDistinctN (args : List Expr)      -- count_distinct(c1, c2, …): several argument columns
   | lit (v : Val)
   | bin (op : BinOp) (a b : AExpr)
   deriving DecidableEq, Repr
@@ -79,13 +80,27 @@ def aggVal (fn : AggFn) (vs : List Val) : Val :=
   | .max => pickBy (fun v w => w.le v) (nonNull vs)
   | .countDistinct => .int (distinctVals (nonNull vs)).length
 
+/-- the distinct key tuples of a list (one representative each) -/
+def distinctL : List (List Val) → List (List Val)
+  | [] => []
+  | k :: ks => if k ∈ ks then distinctL ks else k :: distinctL ks
+
+/-- a tuple of argument values takes part in a multi-argument aggregate only if *none* of them is NULL -/
+def tupleNonNull (t : List Val) : Bool := t.all (fun v => v ≠ .null)
+
+/-- `count(DISTINCT a, b, …)`: the number of distinct argument tuples among the rows in which every
+    argument is non-NULL (Spark: "rows for which the supplied expressions are unique and non-null") -/
+def countDistinctTuples (ts : List (List Val)) : Val := .int (distinctL (ts.filter tupleNonNull)).length
+
 def evalAExpr (cols : List Name) (g : List Row) : AExpr → Val
   | .agg fn arg => aggVal fn (g.map (fun r => eval cols r arg))
+  | .countDistinctN args => countDistinctTuples (g.map (fun r => args.map (eval cols r)))
   | .lit v => v
   | .bin op a b => binSem op (evalAExpr cols g a) (evalAExpr cols g b)
 
 def AExpr.refs : AExpr → List Name
   | .agg _ arg => arg.refs
+  | .countDistinctN args => args.flatMap Expr.refs
   | .lit _ => []
   | .bin _ a b => a.refs ++ b.refs
 
@@ -144,11 +159,6 @@ def evalGSBlock (b : GSBlock) (T0 : Table) : Table :=
         b.aggs.map (fun a => evalAExpr T0.cols kg.2 a.2))) }
 
 /-! ### PySpark's specification -/
-
-/-- the distinct key tuples of a list (one representative each) -/
-def distinctL : List (List Val) → List (List Val)
-  | [] => []
-  | k :: ks => if k ∈ ks then distinctL ks else k :: distinctL ks
 
 /-- `T.groupBy(keys).agg(aggs)`: one row per distinct key tuple (NULL is a key value), keys then aggregates;
     no keys = one row, also over an empty table -/
